@@ -5,9 +5,9 @@ Theorems: lean/PersimVerif/Props/C10.lean about the model lean/PersimVerif/Model
 Tie: `_p_norm`, `PersLandscapeExact.p_norm/sup_norm`, `PersLandscapeApprox.p_norm/sup_norm` of the real
 code vs the same model executed at Rat (natural p, exact p-th power) and at Float (real p), on landscapes
 of generated diagrams, their differences and random linear combinations, and on synthetic piecewise-linear
-functions.  [T]: real p, homogeneity, ||P-P|| = 0, triangle inequality, finiteness, sup-norm stability vs
-`persim.bottleneck`, and an independent quadrature oracle (scipy.integrate.quad with breakpoints), all on
-the real code.
+functions.  [T] on the real code: real p, homogeneity, ||P-P|| = 0, triangle inequality, finiteness, sup-norm
+stability vs `persim.bottleneck`, and an independent quadrature oracle (scipy.integrate.quad with breakpoints).
+(Homogeneity, P-P and stability are also theorems; Minkowski and real p are tests only.)
 """
 import contextlib, io, math
 from fractions import Fraction
@@ -698,18 +698,24 @@ def replay(ctx, rep):
 
 
 MANIFEST = {
-    "text": "Proof for natural p: Lean theorems about the model of _p_norm / sup_norm at the reals — each segment term of the "
-            "model (flat, one-signed of either sign, sign-crossing) equals the interval integral of |line|^p; the accumulated "
-            "value equals the sum over depths of the integral of |evalPL|^p over the support, hence the norm is its p-th root; "
-            "the sup norm equals the greatest value of |evalPL| (attained at a breakpoint); absolute homogeneity, ||P-P|| = 0, "
-            "the argument validation of base.py, and a norm_num counterexample for the pre-fix formula (2/3 instead of 4/3). "
-            "The model is tied to the code on every run at Rat (exact p-th power, natural p in 1..20) and at Float (real p) on "
-            "exact and grid landscapes, their differences and linear combinations and on synthetic functions.",
+    "text": "Proof for natural p: Lean theorems about the model of _p_norm / p_norm / sup_norm at the reals. Each segment term "
+            "of the model (flat, sign-crossing, one-signed of either sign in the cancellation-free form of fix b342827) equals "
+            "the interval integral of |line|^p; the accumulated value equals the sum over depths of the integral of |evalPL|^p "
+            "over the support and, for p >= 1, over the real line, so the returned norm is its p-th root; the sup norm of both "
+            "classes equals the greatest value of |evalPL| over all depths (attained at a breakpoint); the value is non-negative, "
+            "absolutely homogeneous (p-norm and sup norm), zero on P - P; base.py rejects exactly p < -1 and -1 < p < 0; the "
+            "pre-fix formula is refuted by norm_num on [(0,0),(1,1),(3,-1),(4,0)] (2/3 instead of 4/3). Stability is proved for "
+            "the mathematical landscape: a partial matching of cost <= eps gives |lambda_k(t) - lambda'_k(t)| <= eps for all k, "
+            "t, hence sup-norm distance <= bottleneck distance. The model is tied to the code on every run at Rat (exact p-th "
+            "power, natural p in 1..20, 1e-9 relative) and at Float (real p) on exact and grid landscapes, their differences and "
+            "linear combinations and on synthetic functions with forced zeros, equal and nearly equal neighbours.",
     "note": "[T] only, not proved: real (non-integer) p (Float model + quadrature oracle); Minkowski's triangle inequality (a "
-            "property of the integral the theorem identifies the value with; tested on triples); sup-norm stability against "
-            "persim.bottleneck (tested; skipped where the C03 known finding fires); finiteness under float arithmetic. Trusted: "
-            "Lean kernel + Mathlib, axioms propext/Classical.choice/Quot.sound; the correspondence harness; np.linspace, C pow. "
-            "Theorems are exact-arithmetic. Observation outside the property (p >= 1): p_norm(-1) returns NaN, not the sup "
-            "norm, because both subclasses discard the value of super().p_norm — modelled as is.",
+            "property of the integral the theorems identify the value with; tested on triples); finiteness/accuracy under float "
+            "rounding (law stream; this is what exposed the near-flat cancellation repaired by b342827); the stability theorem is "
+            "about PL.landscape, its transfer to the code's sweep rests on C03/C09 and is additionally tested against "
+            "persim.bottleneck (cases where the C03 repeated-bar shortcut fires are skipped and counted). Trusted: Lean kernel + "
+            "Mathlib, axioms propext/Classical.choice/Quot.sound; the correspondence harness; np.linspace, C pow/expm1/log. "
+            "Observation outside the property (p >= 1): p_norm(-1) returns NaN instead of the sup norm, because both subclasses "
+            "discard the value of super().p_norm — modelled as is (pNormMethod).",
     "technique": "Lean 4 theorems (Mathlib interval integrals) over a hand-written model + differential correspondence at Rat/Float + quadrature oracle",
 }
